@@ -25,7 +25,7 @@ type JNode struct {
 	B    bool     `json:"b,omitempty"`
 }
 
-var jsonKeys = []string{"a", "b", "c", "id", "name", "zz", "A", "", "a.b", "0", "1", "a b", "é", "q\"uote", "back\\slash", "x*y", "p?q", "h#", "at@", "pi|pe", "new\nline", "tab\t", "<tag>", "日本", "k10", "k9", "_", "-"}
+var jsonKeys = []string{"a", "b", "c", "id", "name", "zz", "A", "", "a.b", "0", "1", "a b", "é", "q\"uote", "back\\slash", "x*y", "p?q", "h#", "at@", "pi|pe", "new\nline", "tab\t", "<tag>", "日本", "k10", "k9", "_", "-", "$", "$", "idToken", "a:b", "x/y", "k1"}
 
 var jsonStrings = []string{"", "a", "hello world", "é", "日本語", "\U0001F600", "q\"uote", "back\\slash", "sl/ash", "<b>&amp;</b>", "line\nbreak", "tab\there", "\u0001", " ", "---", "[TestA - 1]", "null", "1", "a long long long long long long string value here", " "}
 
